@@ -18,7 +18,8 @@ C. code -> spec: free-running stress (8 threads, switch interval 1e-6, PDFs incl
    (one fresh process per document; a document that ever differs is re-measured twice in isolation and
    left out if its isolated result is not reproducible, e.g. xlsx "created" = now).
 D. histories: TLC enumerates all histories over the abstract document classes of Globals.tla
-   (font x glyph-set in subset/superset/overlap/disjoint relation, AES trigger, AES user, plain); each runs
+   (font x glyph-set in subset/superset/overlap/disjoint relation, AES trigger, AES user, plain, failing input,
+   restore-a-stored-extraction); each runs
    in a fresh process on generated documents (all glyphs shown: resolved and overwritten glyphs observable);
    plus seeded orders over all fixtures (mixed formats, failing inputs).  Recorded Extract/Residue events
    are validated by TLC against the reference model (Deviations = {}); a rejected history is a
